@@ -1,4 +1,4 @@
-//go:build !skip_c17 || !skip_c19
+//go:build !skip_c17c19_mock
 
 package main
 
